@@ -317,12 +317,19 @@ void *__wrap_dlopen (const char *path, int flags) {
 static char nm_base[NNAMES][64];      /* the names given to the library */
 static char nm_file[NNAMES][3][64];   /* /dev/shm files: sem of name, shm of name, lock sem of the shm */
 
+extern void p_mem_shutdown (void);
+static int lib_inited;
 static void key_of (const char *name, const char *suffix, char *dst /* >= 32 */) {
 	char b[160];
 	snprintf (b, sizeof b, "%s%s", name, suffix);
+	/* between p_libsys_shutdown and the next p_libsys_init the library has no allocator (its table holds NULLs):
+	 * give it the default one for this helper call only */
+	int bare = !lib_inited;
+	if (bare) p_mem_restore_vtable ();
 	pchar *k = p_ipc_get_platform_key (b, TRUE);
 	snprintf (dst, 32, "%s", k ? k : "/?");
 	p_free (k);
+	if (bare) p_mem_shutdown ();
 }
 
 static void names_setup (long pid, long ctr) {
@@ -429,7 +436,6 @@ enum { T_NONE, T_STR, T_LIST, T_STRLIST, T_TREE, T_HT, T_ERR, T_INI, T_HASH, T_D
 struct kv { long k, v; };
 struct slot { int t; void *p; long a, b, c; struct kv sh[64]; };
 static struct slot S[NSLOT];
-static int lib_inited;
 static int dl_pending;
 
 #define OKS(i) ((i) >= 0 && (i) < NSLOT)
@@ -1384,6 +1390,10 @@ static struct snap base_snap;
 static long seq_ctr;
 
 static void seq_begin (long pid) {
+	/* a sequence that did not end with lib_shutdown (a shrunk or cut-off case): the next one starts from a library that
+	 * is not initialised, as the model does */
+	if (lib_inited) { a_on = 0; p_libsys_shutdown (); lib_inited = 0; }
+	(void) dlerror ();                      /* a pending dlopen error message is per-process state of libc, not of the sequence */
 	names_setup (pid, seq_ctr++);
 	names_remove ();
 	for (int i = 0; i < NSLOT; i++) clr (i);
